@@ -25,7 +25,8 @@ Definition attr_node_type : N := 1.   (* "camliNodeType" *)
 Inductive lop := OAnd | OOr | OXor | ONot.
 (* the value part of a PermanodeConstraint: none, Value (exact), or a ValueMatches string constraint, given by the set of
    values it accepts *)
-Inductive pval := PNone | PExact (v : N) | PIn (vs : list N).
+(* PExactIf v ok: Value v together with a ValueMatches constraint in the same struct; ok = does v satisfy that constraint *)
+Inductive pval := PNone | PExact (v : N) | PIn (vs : list N) | PExactIf (v : N) (ok : bool).
 (* one Constraint struct: every set field must match (allMustMatch); no field set = neverMatch *)
 Inductive cst :=
 | Node (logical : option (lop * cst * cst)) (anything : bool) (camli : ctype) (anycamli : bool)
@@ -40,7 +41,7 @@ Definition avals (b : blobm) (a : N) : list N :=
   match find (fun p => N.eqb (fst p) a) (m_attrs b) with Some p => snd p | None => [] end.
 Definition memN (x : N) (l : list N) : bool := existsb (N.eqb x) l.
 Definition pval_matches (v : pval) (vals : list N) : bool :=
-  match v with PNone => true | PExact x => memN x vals | PIn vs => existsb (fun x => memN x vs) vals end.
+  match v with PNone => true | PExact x => memN x vals | PIn vs => existsb (fun x => memN x vs) vals | PExactIf x ok => memN x vals && ok end.
 
 Definition find_blob (w : world) (r : N) : option blobm := find (fun q => N.eqb (m_ref q) r) w.
 (* the permanodes related to b over live edges: its children, or the permanodes it is a child of *)
@@ -104,7 +105,9 @@ Fixpoint only_perm (c : cst) : bool :=
   end.
 
 Definition exact_type (perm : option (N * pval)) : option N :=
-  match perm with Some (a, PExact v) => if N.eqb a attr_node_type then Some v else None | _ => None end.
+  match perm with
+  | Some (a, PExact v) | Some (a, PExactIf v _) => if N.eqb a attr_node_type then Some v else None   (* the planner looks at Value only *)
+  | _ => None end.
 
 Fixpoint perm_types (c : cst) : list N :=
   match c with
